@@ -286,5 +286,22 @@ def _dataset(case, ctx):
         good = good and _cells_equal(f.iloc[:, :-1], Xs, 0)[0]
         ctx.check("loader.forms", good, "loader:single-frame-form-inconsistent-with-X-y", "single-frame form differs from the return_X_y form (split=%s)" % split,
                   columns=list(f.columns)[-2:], n=len(f), nan_labels=int(f["class_val"].isna().sum()) if "class_val" in f else None)
+    # a loader has no memory: after the single-frame forms have been requested (and the returned frames been edited by the caller),
+    # the (X, y) forms are what they were
+    for split in ("train", "test", None):
+        ok, f = ctx.call("loader:frame-exception:%s" % name, fn, split, False)
+        if ok:
+            try:
+                f["scratch"] = 0            # a caller editing what it was given
+                f.iloc[0, 0] = f.iloc[-1, 0]
+            except Exception:  # noqa
+                pass
+        ok, r2 = ctx.call("loader:exception:%s" % name, fn, split, True)
+        if ok:
+            X2, y2 = r2
+            Xs, ys = res[split]
+            good = list(X2.columns) == list(Xs.columns) and len(X2) == len(Xs) and _cells_equal(X2, Xs, 0)[0] and [str(v) for v in y2] == [str(v) for v in ys]
+            ctx.check("loader.forms", good, "loader:X-y-form-changes-after-other-calls", "the return_X_y form differs after the single-frame form was requested / edited (split=%s)" % split,
+                      columns=[str(c) for c in X2.columns][-3:], expected_columns=[str(c) for c in Xs.columns][-3:])
     ctx.event(kind="dataset", name=name, train=len(Xtr), test=len(Xte), columns=X.shape[1], classes=sorted(set(str(v) for v in y))[:6])
     ctx.nontrivial = True
